@@ -177,8 +177,7 @@ def c11_refuse(si: int, ri: int) -> bool:
             if STATES[si] == 'one_stopped':
                 w.call('stop', name='b', waiting=True, match='simple')
             elif STATES[si] == 'in_flight':
-                w.send('incr', name='b', nb=2)           # paced by nothing, but the kill below keeps the loop busy
-                w.send('restart', name='a', match='simple')
+                w.send('restart', name='a', match='simple')       # holds the exclusive slot for its grace period and warm-up delays
             cmd, props = MENU[ri]
             if cmd == 'set' and isinstance(props.get('options'), dict) and list(props['options'])[0] in GOOD and \
                     (('uid' in props['options']) or (props.get('name') == 's' and 'numprocesses' in props['options'])) and \
